@@ -199,7 +199,8 @@ def agent_side(rp, lc, sess, row, nodes, scratch):
     if not isinstance(res, dict):
         return None
     hosts = [0, 1, 6, 7][:nodes]                       # node001, node002, node010, gpu-a of c18.HOSTS
-    per   = max(1, res['cores_per_node']) if kind == 'lsf' else 1
+    # (an LSF host file names a host once per physical core; the other node files once per node)
+    per   = max(1, res['cores_per_node'] // max(1, row['smt'])) if kind == 'lsf' else 1
     case = {'op': 'init', 'kind': kind, 'exec_vnode': None, 'stale': None,
             'cfg': {'cpn': res['cores_per_node'], 'gpn': res['gpus_per_node'], 'smt': row['smt'], 'nodes': res['nodes'],
                     'cores': res['cores'], 'gpus': res['gpus'], 'backup': 0, 'blocked_cores': list(row['blockedCores']),
@@ -457,7 +458,8 @@ def run(ctx):
     for r in rows:
         if (r['label'], r['schema']) in seen_a or not r['schemaOk'] or not r['cpn']: continue
         seen_a.add((r['label'], r['schema']))
-        if not (r['blockedCores'] or r['blockedGpus']) and (len(seen_a) % 5): continue      # every platform that blocks something, a fifth of the others
+        # every platform that blocks something or has hardware threads, a fifth of the others
+        if not (r['blockedCores'] or r['blockedGpus'] or r['smt'] > 1) and (len(seen_a) % 5): continue
         for nodes in (1, 2):
             ja = agent_side(rp, lc, sess, r, nodes, ctx.scratch)
             if ja is None: continue
